@@ -199,6 +199,7 @@ package registry
 //@   modifies H:registry.Var#.Name, M:string:bool#
 //@   requires m != nil && m.conflicted != nil && varsNonNil(m)
 //@   loop 1 invariant counter: ix >= 1
+//@   loop 1 assume-terminates the scope holds finitely many variables, so one of suggested1 ... suggested<len(vars)+1> is free and the loop returns by then (pigeonhole over the decimal renderings, which are pairwise different; not proved)
 //@   loop 1 invariant renamed-only: forall((*Var)(p), old(allocated(p)) ==> p.Name == old(p.Name) || (old(p.Name) == suggested && p.Name == suggested + "1"))
 //@   loop 1 invariant distinct-kept: (forall(i, j, 0 <= i && i < j && j < len(m.vars) ==> old(m.vars[i].Name) != old(m.vars[j].Name))) ==> forall(i, j, 0 <= i && i < j && j < len(m.vars) ==> m.vars[i].Name != m.vars[j].Name)
 //@   ensures not-taken: forall(k, 0 <= k && k < len(m.vars) ==> m.vars[k].Name != r)
